@@ -78,9 +78,11 @@ def rule_adj(chk):
             if p.get("k") == "Variant" and short(p.get("adt", "")) == "FollowedBy":
                 readers.add(owner)
     mk = {short(m) for m in makers}
-    ok = mk == {"leftanglebracket", "rightanglebracket"}
+    # produced inside the lexer module only (the '<' / '>' token functions or a helper of theirs)
+    ok = bool(makers) and all(m.startswith("rssl_preprocess::lexer::") for m in makers)
+    mk = {short(m) for m in makers if not m.startswith("rssl_preprocess::lexer::")} or mk
     chk.ob("C14.adj/constructed-only-by-lexer", ok, "FollowedBy is produced only by the '<' / '>' lexers" if ok else
-           "FollowedBy (token adjacency) is now also constructed in %s" % sorted(mk - {"leftanglebracket", "rightanglebracket"}), "preprocess/src/lexer.rs")
+           "FollowedBy (token adjacency) is now also constructed outside the lexer, in %s" % sorted(mk), "preprocess/src/lexer.rs")
     crates = {f.bodies[r]["crate"] if r in f.bodies else "?" for r in readers}
     allowed = {"rssl_parser", "rssl_preprocess"}
     rd = sorted(short(r) for r in readers)
